@@ -36,3 +36,18 @@ Fixpoint nodup_nat (l : list nat) : bool :=
   match l with [] => true | x :: r => negb (existsb (Nat.eqb x) r) && nodup_nat r end.
 Lemma generated_manager_keys_distinct : nodup_nat manager_keys = true.
 Proof. vm_compute. reflexivity. Qed.
+
+(* --- non-vacuity of the hypotheses used in Properties/C17.v --------------------------------------------------- *)
+(* a program of depth 4 with an exceptional exit, a caught exception and a failing enter, run from the initial state *)
+Definition example_prog : sprog :=
+  Scope (CFlag i_as_sealed) v_true
+    (Seq (Scope CDynEvalGlobal (VA (AInt 1))
+            (Catch (Scope CDynEval (VA (AInt 2)) (Obs GDynEval))))        (* the inner enter fails: AssertionError *)
+         (Seq (Catch (Scope CContextual (VD [(0%Z, AOv 1 true false)])
+                        (Scope CContextual (VD [(0%Z, AOv 2 false false); (1%Z, AOv 3 false false)])
+                           (Seq (Obs GContextual) Raise))))
+              (Obs (GFlag i_as_sealed)))).
+Example example_prog_runs :
+  observations (exec example_prog init_state) = [VD [(0%Z, AOv 1 true false); (1%Z, AOv 3 false false)]; v_true]
+  /\ escapes (exec example_prog init_state) = false.
+Proof. vm_compute. split; reflexivity. Qed.
